@@ -7,6 +7,7 @@ import (
 	"fmt"
 	"go/token"
 	"go/types"
+	"os"
 	"regexp"
 	"sort"
 	"strings"
@@ -65,6 +66,7 @@ type VC struct {
 	nIndexed    int
 	nFunIndexed int
 	topFrame    *Frame
+	assertBlk   []*ssa.BasicBlock
 }
 
 func newVC(eng *Engine, fn string) *VC {
@@ -129,15 +131,30 @@ func (vc *VC) define(hint, sort string, t Term) Term {
 	defer func() { vc.defMemo[sort+":"+t] = vc.lastDefined }()
 	n := vc.fresh(hint, sort)
 	vc.lastDefined = n
-	vc.asserts = append(vc.asserts, fmt.Sprintf("(assert (= %s %s))", n, t))
+	vc.addAssertGlobal(fmt.Sprintf("(assert (= %s %s))", n, t))
 	return n
+}
+
+func (vc *VC) addAssert(a string) {
+	vc.asserts = append(vc.asserts, a)
+	var b *ssa.BasicBlock
+	if vc.topFrame != nil {
+		b = vc.topFrame.curBlock
+	}
+	vc.assertBlk = append(vc.assertBlk, b)
+}
+
+// addAssertGlobal: pure definitions are valid on every path.
+func (vc *VC) addAssertGlobal(a string) {
+	vc.asserts = append(vc.asserts, a)
+	vc.assertBlk = append(vc.assertBlk, nil)
 }
 
 func (vc *VC) assume(t Term) {
 	if t == "true" {
 		return
 	}
-	vc.asserts = append(vc.asserts, "(assert "+t+")")
+	vc.addAssert("(assert " + t + ")")
 }
 
 func (vc *VC) assumeIf(guard, t Term) { vc.assume(implies(guard, t)) }
@@ -308,6 +325,31 @@ func (vc *VC) slicedAsserts(ob *Obligation) map[int]bool {
 
 func (vc *VC) query(ob *Obligation) string { return vc.queryWith(ob, nil) }
 
+// pathQuery: the assumptions made in blocks that are not on the path are
+// vacuous on it and are left out.
+func (vc *VC) pathQuery(ob *Obligation, pi pathInfo) string {
+	keep := map[int]bool{}
+	for i := 0; i < ob.nAsserts; i++ {
+		var blk *ssa.BasicBlock
+		if i < len(vc.assertBlk) {
+			blk = vc.assertBlk[i]
+		}
+		if blk == nil || pi.blocks[blk] {
+			keep[i] = true
+		}
+	}
+	q := vc.queryWith(ob, keep)
+	var extra strings.Builder
+	for _, l := range pi.lits {
+		extra.WriteString("(assert " + l + ")\n")
+	}
+	i := strings.LastIndex(strings.TrimRight(q, "\n"), "\n(assert ")
+	if i < 0 {
+		return q + extra.String()
+	}
+	return q[:i+1] + extra.String() + q[i+1:]
+}
+
 func (vc *VC) queryWith(ob *Obligation, keep map[int]bool) string {
 	var b strings.Builder
 	b.WriteString(vc.eng.prelude)
@@ -413,7 +455,7 @@ func (vc *VC) set(s *State, fam string, t Term) {
 			t = n
 		} else {
 			n := vc.fresh(fam, srt)
-			vc.asserts = append(vc.asserts, fmt.Sprintf("(assert (= %s %s))", n, t))
+			vc.addAssertGlobal(fmt.Sprintf("(assert (= %s %s))", n, t))
 			t = n
 		}
 	}
@@ -658,23 +700,46 @@ func splitTop(s string) []string {
 // loop head) and returns, per path, the literals that pin it down: the edge
 // variables on the path are true, their sibling edges false.  On a single
 // path every state merge collapses, which is what E-matching needs.
-func (vc *VC) pathSplits(ob *Obligation, limit int) [][]Term {
+type pathInfo struct {
+	lits   []Term
+	blocks map[*ssa.BasicBlock]bool
+}
+
+func (vc *VC) pathSplits(ob *Obligation, limit int) []pathInfo {
 	fr := vc.topFrame
 	if fr == nil || ob.blk == nil {
 		return nil
 	}
-	var out [][]Term
+	var out []pathInfo
 	var cur []Term
+	var curBlocks []*ssa.BasicBlock
+	emit := func(stop *ssa.BasicBlock) {
+		bs := map[*ssa.BasicBlock]bool{}
+		for _, b := range curBlocks {
+			bs[b] = true
+		}
+		// everything that was executed before the stop block stays relevant
+		for _, b := range fr.fn.Blocks {
+			if b == stop || b.Dominates(stop) {
+				bs[b] = true
+			}
+		}
+		out = append(out, pathInfo{lits: append([]Term{}, cur...), blocks: bs})
+	}
 	var dfs func(b *ssa.BasicBlock) bool
 	dfs = func(b *ssa.BasicBlock) bool {
 		if b == fr.fn.Blocks[0] || fr.loopHead[b] != nil {
 			if len(out) >= limit {
 				return false
 			}
-			out = append(out, append([]Term{}, cur...))
+			curBlocks = append(curBlocks, b)
+			emit(b)
+			curBlocks = curBlocks[:len(curBlocks)-1]
 			return true
 		}
 		n := 0
+		curBlocks = append(curBlocks, b)
+		defer func() { curBlocks = curBlocks[:len(curBlocks)-1] }()
 		for _, p := range b.Preds {
 			if backEdge(p, b) {
 				continue
@@ -686,10 +751,22 @@ func (vc *VC) pathSplits(ob *Obligation, limit int) [][]Term {
 			n++
 			saved := len(cur)
 			cur = append(cur, e)
+			if os.Getenv("GOVC_DEBUG") != "" {
+				cur = append(cur, fmt.Sprintf("true ; b%d<-b%d(%s)", b.Index, p.Index, p.Comment))
+			}
 			for _, s := range p.Succs {
 				if s != b {
 					if se, ok := fr.edgeCond[[2]int{p.Index, s.Index}]; ok {
 						cur = append(cur, not(se))
+					}
+				}
+			}
+			// the other edges into this join are not taken (lets the solver's
+			// preprocessing collapse the merged states)
+			for _, op := range b.Preds {
+				if op != p && !backEdge(op, b) {
+					if oe, ok := fr.edgeCond[[2]int{op.Index, b.Index}]; ok && oe != e {
+						cur = append(cur, not(oe))
 					}
 				}
 			}
@@ -699,7 +776,7 @@ func (vc *VC) pathSplits(ob *Obligation, limit int) [][]Term {
 			cur = cur[:saved]
 		}
 		if n == 0 {
-			out = append(out, append([]Term{}, cur...))
+			emit(b)
 		}
 		return true
 	}
